@@ -532,7 +532,25 @@ fn run_shard(
     nshards: usize,
     cap: f64,
     hang_keys: &std::sync::Mutex<std::collections::BTreeSet<String>>,
+    permits: &(std::sync::Mutex<usize>, std::sync::Condvar),
 ) -> ShardOut {
+    // every shard process materialises the whole case stream (up to 5.5 GB for the thorough `ros`
+    // stream): bound the number of processes alive at any time
+    struct Permit<'a>(&'a (std::sync::Mutex<usize>, std::sync::Condvar));
+    impl Drop for Permit<'_> {
+        fn drop(&mut self) {
+            *self.0 .0.lock().unwrap() += 1;
+            self.0 .1.notify_one();
+        }
+    }
+    let _permit = {
+        let mut g = permits.0.lock().unwrap();
+        while *g == 0 {
+            g = permits.1.wait(g).unwrap();
+        }
+        *g -= 1;
+        Permit(permits)
+    };
     let mut res = ShardOut::default();
     let mut from = 0usize;
     let skipfile = std::env::temp_dir().join(format!("rtamc-c20-skip-{}-{tag}-{name}-{shard}", std::process::id()));
@@ -628,14 +646,16 @@ pub fn run(ctx: &mut Ctx) -> (String, Value, Vec<String>) {
     for name in STREAMS {
         let cases = stream(name, quick);
         let hang_keys = std::sync::Mutex::new(std::collections::BTreeSet::new());
+        let permits = (std::sync::Mutex::new((40_000_000 / cases.len().max(1)).clamp(2, 2 * nshards)), std::sync::Condvar::new());
+        let permits = &permits;
         // both profiles, all shards in parallel
         let results: Vec<(ShardOut, ShardOut)> = std::thread::scope(|sc| {
             let hs: Vec<_> = (0..nshards)
                 .map(|sh| {
                     let (rel, chk, hk) = (rel.clone(), chk.clone(), &hang_keys);
-                    let h1 = sc.spawn(move || run_shard(&rel, "rel", name, quick, sh, nshards, cap, hk));
+                    let h1 = sc.spawn(move || run_shard(&rel, "rel", name, quick, sh, nshards, cap, hk, permits));
                     let hk = &hang_keys;
-                    let h2 = sc.spawn(move || run_shard(&chk, "chk", name, quick, sh, nshards, cap, hk));
+                    let h2 = sc.spawn(move || run_shard(&chk, "chk", name, quick, sh, nshards, cap, hk, permits));
                     (h1, h2)
                 })
                 .collect();
